@@ -357,3 +357,5 @@ func (r *rawLink) close() {
 	r.conn.Close()
 	r.b.Stop()
 }
+
+func newKey() (crypto.PrivateKeyI, error) { return crypto.NewBLS12381PrivateKey() }
